@@ -25,77 +25,12 @@ mod verif_c01_step_map {
     use super::verif_c01_pool::*;
     use super::*;
 
-    const OK: u8 = 0;
-    const ERR_ALLOC: u8 = 1;
-    const ERR_HUGE: u8 = 2;
-    const ERR_ALREADY: u8 = 3;
-
-    struct Model {
-        outcome: u8,
-        requests: usize,
-        created: usize,
-        dict: Dict,
-        /// slot of the huge leaf that stopped the call (ERR_HUGE), else NONE
-        huge_k: usize,
-        huge_s: usize,
-    }
-
-    /// What the documentation of `map_to_with_table_flags` dictates for this pre-state: walk the
-    /// `levels` parent entries from P4; an existing table entry gets the parent flags added; an
-    /// absent one is filled with a fresh zeroed frame (one allocator request each, failing the
-    /// call if refused); a huge leaf on the way fails the call; then the leaf slot must be unused
-    /// and receives frame | flags.
-    fn model_map_to(pool: &Pool, ix: &Idx, sh: Shape, pre: &Pre, levels: usize, leaf_word: u64, pf: u64, ok: &[bool; 3]) -> Model {
-        let mut m = Model { outcome: OK, requests: 0, created: 0, dict: Dict::new(), huge_k: NONE, huge_s: 0 };
-        let mut cur = 0usize;
-        let mut lvl = 0usize;
-        while lvl < levels {
-            if lvl < sh.d {
-                // existing table entry: flags added, never replaced
-                m.dict.set(cur, ix.0[lvl], pre.e[lvl] | pf, 0);
-                cur = lvl + 1;
-            } else if lvl == sh.d && pre.e[lvl] != 0 {
-                // the leaf of a larger page
-                m.outcome = ERR_HUGE;
-                m.huge_k = cur;
-                m.huge_s = ix.0[lvl];
-                return m;
-            } else {
-                m.requests += 1;
-                if !ok[m.created] {
-                    m.outcome = ERR_ALLOC;
-                    return m;
-                }
-                let new = 4 + m.created;
-                m.dict.set(cur, ix.0[lvl], pool.f[new] | pf, 0);
-                m.dict.zeroed[new] = true;
-                cur = new;
-                m.created += 1;
-            }
-            lvl += 1;
-        }
-        let old = if levels <= sh.d { pre.e[levels] } else { 0 };
-        if old != 0 {
-            m.outcome = ERR_ALREADY;
-            return m;
-        }
-        m.dict.set(cur, ix.0[levels], leaf_word, 0);
-        m
-    }
-
-    /// On an error an existing parent entry may or may not have received the parent flags
-    /// ("at most the requested parent flags may be added to existing parent-table entries").
-    fn relax_for_error(d: &mut Dict, pre: &Pre, sh: Shape, pf: u64) {
-        let mut j = 0;
-        while j < 5 {
-            if j < d.n && j < sh.d {
-                // the first sh.d dictated slots are the existing table entries, in order
-                d.v[j] = pre.e[j];
-                d.may[j] = pf & !pre.e[j];
-            }
-            j += 1;
-        }
-    }
+    const OK: u8 = M_OK;
+    const ERR_ALLOC: u8 = M_ERR_ALLOC;
+    const ERR_HUGE: u8 = M_ERR_HUGE;
+    const ERR_ALREADY: u8 = M_ERR_ALREADY;
+    // the model of the documented behaviour (model_map_to, relax_for_error) is in c01_pool.rs,
+    // shared with the RecursivePageTable harnesses
 
     macro_rules! ob {
         ($prop:literal, $sz:literal, $shape:literal, $clause:literal) => {
@@ -131,7 +66,7 @@ mod verif_c01_step_map {
             let res = unsafe { Mapper::<$S>::map_to_with_table_flags(&mut mapper, page, frame, flags, pf, &mut alloc) };
 
             let leaf_word = frame.start_address().as_u64() | flags.bits() | <$S as Sz>::LEAF_EXTRA;
-            let mut m = model_map_to(&pool, &ix, sh, &pre, <$S as Sz>::L, leaf_word, pf.bits(), &sched);
+            let mut m = model_map_to(&pool, &ix, sh, &pre, <$S as Sz>::L, leaf_word, pf.bits(), 0, &sched);
             let w_in = hw_walk_ix(&pool, &jx, inside);
             let w_pr = hw_walk(&pool, probe);
             let f_post = pool.rd(fk, fs);
